@@ -3,14 +3,14 @@
 import json, os, sys
 VERIF = os.path.dirname(os.path.dirname(os.path.abspath(__file__)))
 
-HOOK_COMMITS = ['a275b0b']
+HOOK_COMMITS = ['a275b0b', '4d9bc15']
 
 ENGINES = [
- {'name': 'E-GRAM', 'path': 'engines/gram_main.cpp', 'serves_properties': ['C01', 'C02', 'C05', 'C08', 'C09', 'C11', 'C16', 'C18'],
+ {'name': 'E-GRAM', 'path': 'engines/gram_main.cpp', 'serves_properties': ['C01', 'C02', 'C05', 'C06', 'C08', 'C09', 'C11', 'C12', 'C16', 'C18'],
   'kind_free_text': 'explicit-state exploration: enumerates every grammar inside stated bounds, injects it into a compiled instantiation of the real ctpg::parser, compares the LR(1) automaton the real analyzer builds with a reference canonical LR(1) automaton state by state, then runs the real parse() on every string up to a length bound against a reference driver'},
-  {'name': 'E-RX', 'path': 'engines/rx_main.cpp', 'serves_properties': ['C03', 'C04', 'C10', 'C17'],
+  {'name': 'E-RX', 'path': 'engines/rx_main.cpp', 'serves_properties': ['C03', 'C04', 'C10', 'C12', 'C17'],
   'kind_free_text': 'explicit-state exploration: enumerates pattern ASTs / term sets / pattern strings inside stated bounds, drives the real regex front-end, dfa_builder and lexer loop, and explores the emitted automaton together with a reference automaton (reachable state pairs x all 256 bytes)'},
-  {'name': 'E-IN/E-CT', 'path': 'progs/', 'serves_properties': ['C07', 'C13', 'C14', 'C19'],
+  {'name': 'E-IN/E-CT', 'path': 'progs/', 'serves_properties': ['C06', 'C07', 'C12', 'C13', 'C14', 'C19'],
   'kind_free_text': 'compiled black-box programs (no guard, no private access) that enumerate a finite configuration x input space completely and check invariants on every execution; built with g++ and clang++'},
 ]
 
@@ -52,6 +52,12 @@ CHECKS = {
  'C17': ('exhaustive enumeration of all strings up to a length bound as patterns; three-valued reference classifier; checked buffer for reads past the end',
          'Bounded exhaustive model checking over pattern-string space: every string up to length 4 (quick) / 5 and 7 over metacharacters (thorough).',
          'Undeclared-symbol grammars (second half of the statement) are decided by the compile-time program enumerator.', '3 C17'),
+ 'C06': ('exhaustive enumeration of grammars x inputs and of byte strings on compiled grammars through a checked user buffer / every buffer kind, with the cvector bounds hook and ASan+UBSan as oracles',
+         'Bounded exhaustive model checking: (1) every LR(1) grammar of the E-GRAM bounds x every string up to length 4-5 through a checked user buffer and cstring_buffer<N>; (2) 3 compiled grammars x every byte string up to length 3-4 over 8-9 bytes incl. NUL/0x80/0xff/whitespace x 4 buffer kinds x 3 option sets under ASan+UBSan; (3) regex::expr::match x every string up to length 4-6; termination by step horizon. Depth sweeps to 1e5 are a one-dimensional sample.',
+         'Sanitizer build uses clang++ (g++ 12 cannot constant-evaluate the header under -fsanitize=null). "Very long or deeply nested input" is only sampled.', '3 C06'),
+ 'C12': ('exhaustive enumeration: predicted vs real automaton sizes over pattern/term-set space, default caps over grammar space, fixed stacks over grammar x input space, user limits around the real counts',
+         'Bounded exhaustive model checking of every derived capacity inside the explored spaces of C01/C03/C04, plus 4 grammars x 8 limit values each.',
+         'Stack-capacity formula N+EmptyRulesCount+1 is a recorded known finding (condition-keyed).', '3 C12'),
  'C07': ('exhaustive enumeration of inputs as generated constexpr declarations; per-case constant-expression verdict from g++ and clang++ diagnostics; six-way run-time differential',
          'Bounded exhaustive exploration: 4 literal-typed grammars x every input up to length 3-4 (quick) / 4-6 (thorough) x 2 compilers; the constant evaluator doubles as a complete undefined-behaviour oracle for the failure paths.',
          'Results are ints; a context grammar is not included.', '3 C07'),
